@@ -172,7 +172,7 @@ def run(ctx):
         seen_metrics.add(cfg["metric"])
         obs = observe(cfg, i)
         ctx.evaluations += 1
-        sc = {"cfg": cfg, "variant": i % 12}
+        sc = {"cfg": cfg, "variant": i % 60}
         if "crash" in obs:
             ctx.violation(sc, "spec->code: %s raised %s" % (cfg["metric"], obs["crash"]))
             continue
@@ -199,10 +199,10 @@ def run(ctx):
         obs = observe(cfg, t)
         ctx.evaluations += 1
         if "crash" in obs:
-            ctx.violation({"cfg": cfg, "variant": t % 12}, "%s raised %s" % (cfg["metric"], obs["crash"]))
+            ctx.violation({"cfg": cfg, "variant": t % 60}, "%s raised %s" % (cfg["metric"], obs["crash"]))
             continue
         if obs["cls"] is False or obs["cls"] == "agg":
-            ctx.violation({"cfg": cfg, "variant": t % 12}, "%s: %s" % ("ClassEqualsFunction" if obs["cls"] is False else "AggregateIsMeanOfColumns", cfg["metric"]))
+            ctx.violation({"cfg": cfg, "variant": t % 60}, "%s: %s" % ("ClassEqualsFunction" if obs["cls"] is False else "AggregateIsMeanOfColumns", cfg["metric"]))
         recs.append({"tid": t, "cfg": cfg, "obs": {"pow": obs["pow"], "cols": obs["cols"]}, "raw": obs["raw"]})
         ctx.nontriv(cfg)
     rejects, _ = ctx.judge("TraceMetrics", "TraceMetrics.cfg",
@@ -210,7 +210,7 @@ def run(ctx):
     ctx.traces += len(recs) - len(rejects)
     for rec in recs:
         if rec["tid"] in rejects:
-            ctx.violation({"cfg": rec["cfg"], "variant": rec["tid"] % 12},
+            ctx.violation({"cfg": rec["cfg"], "variant": rec["tid"] % 60},
                           "code->spec: TLC rejects %s = %s (%s)" % (rec["cfg"]["metric"], rec["raw"], rejects[rec["tid"]]))
     return ctx.finish(
         rule="TLC enumerates 18 metrics x options (symmetric, square_root, sp, horizon weights, multioutput "
